@@ -95,7 +95,7 @@ def gen_case(rng, tier, name=None):
     if name == 'polygamma':
         case['m'] = rng.choice([0, 1, 2, 3])
     if name == 'hyperu':
-        case['a'] = rng.choice([0.5, 1.0, 1.5, 2.0])
+        case['a'] = rng.choice([0.5, 1.0, 1.5, 2.0, 0.3, 3.7, -0.5, -1.3, -2.5, -1.0, -2.0, -3.0])   # incl. (a)_n < 0 and the polynomial case
         case['b'] = rng.choice([0.5, 1.5, 2.5])
     if name == 'clip':
         case['lo'], case['hi'] = -0.5, 0.75
